@@ -17,6 +17,14 @@ pub fn run(ctx: &Ctx) -> i32 {
         say!("INCONCLUSIVE: reference model self-test failed: {}", e);
         return 2;
     }
+    if ctx.replay.as_ref().and_then(|r| r.get("case")).map(|c| c.str_of("kind") == "sanitizer").unwrap_or(false) {
+        // replay of a sanitizer finding: the check script has re-run the sanitizer pass; its report
+        // (if it reproduced) is turned into the verdict by finalize
+        let mut st = crate::report::Stats::new();
+        st.case(1, true);
+        let spec = crate::report::Spec { level: "exploration", rule: "replay of a sanitizer finding", assumptions: vec![], required: vec![], exhaustive: false, extra: vec![] };
+        return crate::report::finalize(ctx, spec, st);
+    }
     match ctx.id.as_str() {
         "C01" | "C02" | "C17" => rules::run(ctx),
         "C03" => process::run_c03(ctx),
